@@ -357,6 +357,20 @@ func (s *Solver) intBody(t *Term, a []string) string {
 	return "0"
 }
 
+// checkCmd: z3's default incremental core is very slow on bit-vector
+// multiplication; the tactic pipeline (non-incremental bit-blasting) decides
+// the same queries 30x faster (measured on the C14 automaton harness: 207 s
+// vs 7 s for 548 queries).
+func (s *Solver) checkCmd() string {
+	if s.intMode || !strings.Contains(s.cmdline[0], "z3") {
+		return "(check-sat)"
+	}
+	if len(s.ufDecl) > 0 {
+		return "(check-sat-using (then simplify solve-eqs (or-else (then ackermannize_bv simplify bit-blast sat) smt)))"
+	}
+	return "(check-sat-using (then simplify solve-eqs bit-blast sat))"
+}
+
 func (s *Solver) Assert(t *Term) {
 	if t.IsTrue() {
 		return
@@ -440,7 +454,7 @@ func (s *Solver) Check(extra *Term, modelVars []*Term) (SatResult, map[string]*b
 		s.Unknowns++
 		return Unknown, nil
 	}
-	s.raw("(check-sat)")
+	s.raw(s.checkCmd())
 	resp, ok := s.readResp(time.Duration(s.timeoutMs)*time.Millisecond + 10*time.Second)
 	if !ok {
 		// solver hung or died: restart and report unknown
